@@ -440,6 +440,7 @@ func propC05Refs(c *Ctx) {
 	fDeps := w.Field("shovel/config", "Integration", "Dependencies")
 	n := 0
 	seenCall := map[ssa.CallInstruction]bool{}
+	checkedFns := map[*ssa.Function]bool{}
 	for _, e := range wk.events {
 		if seenCall[e.Call] {
 			continue
@@ -554,6 +555,50 @@ func propC05Refs(c *Ctx) {
 			}
 		}
 		c.Check("R5.3", fmt.Sprintf("ValidateFilterRefs/visit#%d-registers-dependency", n), instrPos(call), good, detail)
+		// the check itself: a reference that names an integration is either rejected with an error or
+		// reported as resolved – never passed over silently (found by a seeded change that reported
+		// "nothing to register" for a column it had seen before: later integrations lost their dependency)
+		if chk := regionCallee(call); chk != nil && isRepoFunc(chk) && !checkedFns[chk] {
+			checkedFns[chk] = true
+			fRefIg := w.Field("dig", "Ref", "Integration")
+			named, _ := cmpEdges(chk, func(b *ssa.BinOp) bool {
+				arg, ok := lenArg(b.X)
+				k, okc := constInt(b.Y)
+				if !ok || !okc || k != 0 || b.Op != token.GTR {
+					return false
+				}
+				_, ch := fieldChain(arg)
+				return len(ch) > 0 && ch[len(ch)-1] == fRefIg
+			})
+			n2, _ := cmpEdges(chk, func(b *ssa.BinOp) bool {
+				arg, ok := lenArg(b.X)
+				k, okc := constInt(b.Y)
+				if !ok || !okc || k != 0 || b.Op != token.NEQ {
+					return false
+				}
+				_, ch := fieldChain(arg)
+				return len(ch) > 0 && ch[len(ch)-1] == fRefIg
+			})
+			named = append(named, n2...)
+			if len(named) > 0 && chk.Signature.Results().Len() == 2 {
+				silent := ""
+				for _, e := range named {
+					reach(Site{e.To, -1}, func(in ssa.Instruction) bool {
+						r, isR := in.(*ssa.Return)
+						if !isR {
+							return false
+						}
+						vals := returnValues(r)
+						if k, isC := vals[0].(*ssa.Const); isC && k.Value != nil && k.Value.String() == "false" && isNilConst(vals[1]) {
+							silent = w.Pos(instrPos(r))
+						}
+						return false
+					}, nil)
+				}
+				c.Check("R5.3", fmt.Sprintf("%s/named-reference-resolved-or-rejected", fnName(chk)), chk.Pos(), silent == "",
+					"a reference that names an integration is reported as resolved or rejected with an error; it returns (false, nil) at "+silent)
+			}
+		}
 	}
 }
 
